@@ -1087,3 +1087,142 @@ def threshold_compares(fn):
                 dg = D.deg(expr, n)
                 if isinstance(dg, (int, float)):
                     yield n, expr, c, dg
+
+
+# --------------------------------------------------------------------------- layout independent helpers (hardening round)
+from contextlib import contextmanager
+from . import he_norm
+
+
+def fview(ctx_or_repo, modname, fn, **kw):
+    """the view of a function (private helpers inlined, aliases propagated, literal loops unrolled): see he_norm"""
+    repo = getattr(ctx_or_repo, "repo", ctx_or_repo)
+    m = repo.module(modname)
+    return he_norm.view(repo, m.name, fn, **kw)
+
+
+def facts(node, stop=None, toplevel=True):
+    """(test, polarity) that hold when `node` runs: enclosing if / while / conditional expression tests and the negation of earlier
+    early exits, `not`s folded"""
+    return [au.strip_not(t, p) for t, p in au.conditions(node, stop=stop, toplevel=toplevel)]
+
+
+def canon_facts(node, stop=None, toplevel=True):
+    return {au.canon_test(t, p) for t, p in au.conditions(node, stop=stop, toplevel=toplevel)}
+
+
+_BIND_CACHE = {}
+
+
+def _alias_of(test, pol, node):
+    """a test on a local that merely copies an option (`use_cotan = cotan`, `flat = not dense`, `inv = bool(inverse)`) is a test on the option"""
+    fn = au.enclosing_func(node)
+    if fn is None:
+        return test, pol
+    b = _BIND_CACHE.get(id(fn))
+    if b is None or b[0] is not fn:
+        b = (fn, sym.Bindings(fn))
+        if len(_BIND_CACHE) > 500:
+            _BIND_CACHE.clear()
+        _BIND_CACHE[id(fn)] = b
+    b = b[1]
+    for _ in range(3):
+        if isinstance(test, ast.Name) and test.id not in au.params(fn) and b.single(test.id):
+            d = b.defs[test.id]
+            while isinstance(d, ast.Call) and isinstance(d.func, ast.Name) and d.func.id == "bool" and len(d.args) == 1:
+                d = d.args[0]
+            d, p2 = au.strip_not(d, True)
+            if isinstance(d, (ast.Name, ast.Compare, ast.BoolOp)):
+                test, pol = d, (pol if p2 else not pol)
+                continue
+        break
+    return test, pol
+
+
+def flag_polarity(node, name, stop=None):
+    """True / False when the boolean option `name` is known to hold / not to hold at node, None otherwise"""
+    for t, pol in facts(node, stop=stop):
+        t, pol = _alias_of(t, pol, node)
+        if isinstance(t, ast.Name) and t.id == name:
+            return pol
+        if isinstance(t, ast.BoolOp):
+            vals = [au.strip_not(v) for v in t.values]
+            if isinstance(t.op, ast.And) and pol:
+                for v, p in vals:
+                    if isinstance(v, ast.Name) and v.id == name:
+                        return p
+            if isinstance(t.op, ast.Or) and not pol:
+                for v, p in vals:
+                    if isinstance(v, ast.Name) and v.id == name:
+                        return not p
+    return None
+
+
+def param_defaults(fn):
+    a = fn.args
+    pos = [p.arg for p in a.posonlyargs + a.args]
+    out = {}
+    for p, d in zip(pos[len(pos) - len(a.defaults):], a.defaults):
+        out[p] = d
+    for p, d in zip(a.kwonlyargs, a.kw_defaults):
+        if d is not None:
+            out[p.arg] = d
+    return out
+
+
+@contextmanager
+def guarded(ctx, rule, site, what="the rule"):
+    """an internal failure of a recogniser on an unforeseen shape is an undecided obligation, never a crash and never an alarm"""
+    try:
+        yield
+    except Exception as e:      # noqa
+        from ..core import AnalysisError
+        if isinstance(e, AnalysisError):
+            raise
+        ctx.undecided(rule, site, f"{what}: the construct has a shape the recogniser cannot read ({type(e).__name__})",
+                      "the analysis gave up on this obligation")
+
+
+def load_key(target):
+    """structural key of a store target read back as a value (`A[k]` stored == `A[k]` loaded)"""
+    return au.norm(target).replace("Store()", "Load()")
+
+
+def callers_of(repo, modname, name):
+    """(function, call) pairs of the module that call the module-level function `name`"""
+    m = repo.module(modname)
+    out = []
+    for q, fn in m.funcs.items():
+        for c in au.calls(fn):
+            if isinstance(c.func, ast.Name) and c.func.id == name:
+                out.append((fn, c))
+    return out
+
+
+def cstr(e):
+    """canonical text of an expression: arithmetic is written as the sorted polynomial of its non-arithmetic parts, so that commuted,
+    re-associated or algebraically rearranged index / weight expressions get the same text"""
+    if isinstance(e, (ast.BinOp, ast.UnaryOp)) or (isinstance(e, ast.Constant) and isinstance(e.value, (int, float)) and not isinstance(e.value, bool)):
+        arith = isinstance(e, ast.Constant) or (isinstance(e, ast.UnaryOp) and isinstance(e.op, (ast.USub, ast.UAdd))) \
+            or (isinstance(e, ast.BinOp) and isinstance(e.op, (ast.Add, ast.Sub, ast.Mult, ast.Div, ast.Pow)))
+        if arith:
+            def atom(x):
+                if isinstance(x, (ast.BinOp, ast.UnaryOp)) or isinstance(x, ast.Constant):
+                    return None
+                return cstr(x)
+            try:
+                return repr(sym.to_poly(e, atom_of=atom, opaque=True))
+            except Exception:
+                return au.src(e)
+    if isinstance(e, ast.Subscript):
+        return f"{cstr(e.value)}[{cstr(e.slice)}]"
+    if isinstance(e, ast.Attribute):
+        return f"{cstr(e.value)}.{e.attr}"
+    if isinstance(e, ast.Call):
+        args = [cstr(a) for a in e.args] + [f"{k.arg}={cstr(k.value)}" for k in e.keywords]
+        return f"{cstr(e.func)}({', '.join(args)})"
+    if isinstance(e, ast.Tuple):
+        return "(" + ", ".join(cstr(x) for x in e.elts) + ")"
+    if isinstance(e, ast.Starred):
+        return "*" + cstr(e.value)
+    return au.src(e)
